@@ -398,28 +398,16 @@ func buildUpdatedFields(input *TaskInput) []string {
 func applySetUpdates(dir string, opts GlobalOptions, id string, updates map[string]string, agentID string, quiet bool) error {
 	lockPath := filepath.Join(dir, "lock")
 	eventsPath := getEventsPath(dir)
+	repoDir := filepath.Dir(dir)
 
-	// Handle result.path + result.summary (requires file I/O before lock)
-	resultPath, hasPath := updates["result.path"]
-	resultSummary, hasSummary := updates["result.summary"]
+	_, hasPath := updates["result.path"]
+	_, hasSummary := updates["result.summary"]
 	if hasPath || hasSummary {
 		if !hasPath {
 			return errors.New("result.summary requires result.path=")
 		}
 		if !hasSummary {
 			return errors.New("result.path requires result.summary=")
-		}
-		if err := writeResultEvent(dir, opts, id, resultSummary, resultPath); err != nil {
-			return err
-		}
-		delete(updates, "result.path")
-		delete(updates, "result.summary")
-		// If no other updates, we're done
-		if len(updates) == 0 {
-			if !quiet {
-				fmt.Println(id)
-			}
-			return nil
 		}
 	}
 
@@ -438,45 +426,10 @@ func applySetUpdates(dir string, opts GlobalOptions, id string, updates map[stri
 			return fmt.Errorf("unknown task id %s", id)
 		}
 
-		// Epics cannot have state or claim
-		if isEpic(task) {
-			if _, hasState := updates["state"]; hasState {
-				return errors.New("epics do not have state")
-			}
-			if _, hasClaim := updates["claim"]; hasClaim {
-				return errors.New("epics cannot be claimed")
-			}
-		}
-
-		// An epic assignment must name a live epic ("" unassigns)
-		if epicID, ok := updates["epic"]; ok && epicID != "" && !isEpic(task) {
-			if _, pruned := graph.Tombstones[epicID]; pruned {
-				return prunedErr(epicID)
-			}
-			epic, ok := graph.Tasks[epicID]
-			if !ok {
-				return fmt.Errorf("unknown epic id %s", epicID)
-			}
-			if !isEpic(epic) {
-				return fmt.Errorf("task %s is not an epic", epicID)
-			}
-		}
-
 		now := time.Now().UTC()
-
-		// Build events using pure function, passing I/O-dependent body resolver
-		events, remainingUpdates, err := buildSetEvents(id, task, updates, agentID, now, identityBodyResolver)
+		events, err := buildUpdateEvents(graph, repoDir, id, task, updates, agentID, now)
 		if err != nil {
 			return err
-		}
-
-		// Check for any unhandled keys
-		if len(remainingUpdates) > 0 {
-			var unknown []string
-			for key := range remainingUpdates {
-				unknown = append(unknown, key)
-			}
-			return fmt.Errorf("unknown keys: %s", strings.Join(unknown, ", "))
 		}
 
 		if err := appendEvents(eventsPath, events); err != nil {
@@ -487,6 +440,74 @@ func applySetUpdates(dir string, opts GlobalOptions, id string, updates map[stri
 		}
 		return nil
 	})
+}
+
+// buildUpdateEvents validates a whole set request (result attachment and field
+// updates) against graph and returns the events that record it, result first.
+// Nothing is written here: the request is accepted or rejected as a whole.
+func buildUpdateEvents(graph *Graph, repoDir, id string, task *Task, updates map[string]string, agentID string, now time.Time) ([]Event, error) {
+	fields := make(map[string]string, len(updates))
+	for k, v := range updates {
+		fields[k] = v
+	}
+
+	var events []Event
+	resultPath, hasPath := fields["result.path"]
+	resultSummary, hasSummary := fields["result.summary"]
+	if hasPath && hasSummary {
+		event, err := buildResultEvent(graph, repoDir, id, resultSummary, resultPath)
+		if err != nil {
+			return nil, err
+		}
+		events = append(events, event)
+		delete(fields, "result.path")
+		delete(fields, "result.summary")
+		// If no other updates, we're done
+		if len(fields) == 0 {
+			return events, nil
+		}
+	}
+
+	// Epics cannot have state or claim
+	if isEpic(task) {
+		if _, hasState := fields["state"]; hasState {
+			return nil, errors.New("epics do not have state")
+		}
+		if _, hasClaim := fields["claim"]; hasClaim {
+			return nil, errors.New("epics cannot be claimed")
+		}
+	}
+
+	// An epic assignment must name a live epic ("" unassigns)
+	if epicID, ok := fields["epic"]; ok && epicID != "" && !isEpic(task) {
+		if _, pruned := graph.Tombstones[epicID]; pruned {
+			return nil, prunedErr(epicID)
+		}
+		epic, ok := graph.Tasks[epicID]
+		if !ok {
+			return nil, fmt.Errorf("unknown epic id %s", epicID)
+		}
+		if !isEpic(epic) {
+			return nil, fmt.Errorf("task %s is not an epic", epicID)
+		}
+	}
+
+	// Build events using pure function, passing I/O-dependent body resolver
+	setEvents, remainingUpdates, err := buildSetEvents(id, task, fields, agentID, now, identityBodyResolver)
+	if err != nil {
+		return nil, err
+	}
+
+	// Check for any unhandled keys
+	if len(remainingUpdates) > 0 {
+		var unknown []string
+		for key := range remainingUpdates {
+			unknown = append(unknown, key)
+		}
+		return nil, fmt.Errorf("unknown keys: %s", strings.Join(unknown, ", "))
+	}
+
+	return append(events, setEvents...), nil
 }
 
 // buildSetEvents generates the event list for a set command.
